@@ -363,6 +363,27 @@ class Access:
             if isinstance(n, (ast.Lambda, ast.FunctionDef, ast.ClassDef, ast.Global, ast.Nonlocal,
                               ast.Try, ast.With)) and n is not fn:
                 bail(n, "%s: nested scope / try / with not supported by the access analysis" % fn.name)
+        # names that hold one of the module's functions taking (image, mask) (assigned, or loop targets over tables of them):
+        # calling such a name with (image, mask, …) hands the pair down
+        known = {n.name for n in ast.walk(ast.parse(src)) if isinstance(n, ast.FunctionDef)
+                 and {"image", "mask"} <= {a.arg for a in n.args.args}}
+        self.fnvars = {"fn"} if False else set()
+        for n in ast.walk(fn):
+            tgt, val = None, None
+            if isinstance(n, ast.Assign) and len(n.targets) == 1:
+                tgt, val = n.targets[0], n.value
+            elif isinstance(n, ast.For):
+                tgt, val = n.target, n.iter
+                if isinstance(val, ast.Name):
+                    defs = [m.value for m in ast.walk(fn) if isinstance(m, ast.Assign) and len(m.targets) == 1
+                            and isinstance(m.targets[0], ast.Name) and m.targets[0].id == val.id]
+                    val = defs[0] if len(defs) == 1 else val
+            if tgt is None:
+                continue
+            if any(isinstance(m, ast.Name) and m.id in known for m in ast.walk(val)):
+                for m in ast.walk(tgt):
+                    if isinstance(m, ast.Name):
+                        self.fnvars.add(m.id)
         self.img_alias = set()   # fresh locals bound to the raw parameter (`x = image`): read like `image` itself
         self.mask_names = {"mask"}
         self.assigns = {}        # name -> list of value nodes assigned to it (for SliceDown)
@@ -382,43 +403,61 @@ class Access:
         """image[S] bound to a name that is only passed down as the image argument of
         get_global_threshold together with mask=<name whose definition restricts mask[S]>"""
         asg = self.parents.get(sub)
-        if not (isinstance(asg, ast.Assign) and len(asg.targets) == 1 and isinstance(asg.targets[0], ast.Name)):
-            return None
-        var = asg.targets[0].id
-        if len(self.assigns.get(var, [])) != 1:
-            return None
         sdump = ast.dump(sub.slice)
-        uses = [n for n in ast.walk(self.fn) if isinstance(n, ast.Name) and n.id == var
-                and isinstance(n.ctx, ast.Load)]
-        if not uses:
-            return None
+        if isinstance(asg, ast.Call):
+            uses = [sub]                              # image[S] written directly in the argument list
+        else:
+            if not (isinstance(asg, ast.Assign) and len(asg.targets) == 1 and isinstance(asg.targets[0], ast.Name)):
+                return None
+            var = asg.targets[0].id
+            if len(self.assigns.get(var, [])) != 1:
+                return None
+            uses = [n for n in ast.walk(self.fn) if isinstance(n, ast.Name) and n.id == var
+                    and isinstance(n.ctx, ast.Load)]
+            if not uses:
+                return None
+        def is_submask(e):
+            return (isinstance(e, ast.Subscript) and isinstance(e.value, ast.Name) and e.value.id in self.mask_names
+                    and ast.dump(e.slice) == sdump)
+
+        def guarded_some(e):
+            """is e evaluated only where mask is not None (if-statement or conditional expression)?"""
+            n = e
+            while n in self.parents:
+                p = self.parents[n]
+                if isinstance(p, ast.If) and mask_none_test(p.test) == "some" and any(n is b or n in ast.walk(b) for b in p.body):
+                    return True
+                if isinstance(p, ast.If) and mask_none_test(p.test) == "none" and any(n is b or n in ast.walk(b) for b in p.orelse):
+                    return True
+                if isinstance(p, ast.IfExp) and ((mask_none_test(p.test) == "some" and p.body is n)
+                                                  or (mask_none_test(p.test) == "none" and p.orelse is n)):
+                    return True
+                n = p
+            return False
+
+        def restricts(e, depth=0):
+            """e denotes None (when mask is None) or an array contained in mask[S]"""
+            if depth > 4:
+                return False
+            if is_submask(e):
+                return True
+            if isinstance(e, ast.IfExp) and mask_none_test(e.test) in ("none", "some"):
+                none_side, some_side = (e.body, e.orelse) if mask_none_test(e.test) == "none" else (e.orelse, e.body)
+                return (isinstance(none_side, ast.Constant) and none_side.value is None) and restricts(some_side, depth + 1)
+            if isinstance(e, ast.Call) and self.seg(e.func) in ("np.logical_and", "numpy.logical_and") and len(e.args) == 2:
+                return any(is_submask(a) for a in e.args) and guarded_some(e)
+            if isinstance(e, ast.BinOp) and isinstance(e.op, ast.BitAnd):
+                return any(is_submask(a) for a in (e.left, e.right)) and guarded_some(e)
+            if isinstance(e, ast.Name):
+                return any(restricts(d, depth + 1) for d in self.assigns.get(e.id, []))
+            return False
         for u in uses:
             call = self.parents.get(u)
             if not (isinstance(call, ast.Call) and isinstance(call.func, ast.Name)
-                    and call.func.id == "get_global_threshold" and len(call.args) == 2 and call.args[1] is u):
+                    and call.func.id == "get_global_threshold" and len(call.args) >= 2 and call.args[1] is u):
                 return None
-            mk = [k for k in call.keywords if k.arg == "mask"]
-            if len(mk) != 1 or not isinstance(mk[0].value, ast.Name):
-                return None
-            mvar = mk[0].value.id
-            defs = self.assigns.get(mvar, [])
-            ok = False
-            for d in defs:
-                # None if mask is None else mask[S]
-                if (isinstance(d, ast.IfExp) and mask_none_test(d.test) == "none"
-                        and isinstance(d.body, ast.Constant) and d.body.value is None
-                        and isinstance(d.orelse, ast.Subscript) and isinstance(d.orelse.value, ast.Name)
-                        and d.orelse.value.id == "mask" and ast.dump(d.orelse.slice) == sdump):
-                    ok = True
-                # np.logical_and(mask[S], mvar)   (under `if not mask is None`)
-                if (isinstance(d, ast.Call) and self.seg(d.func) == "np.logical_and" and len(d.args) == 2
-                        and isinstance(d.args[0], ast.Subscript) and isinstance(d.args[0].value, ast.Name)
-                        and d.args[0].value.id == "mask" and ast.dump(d.args[0].slice) == sdump
-                        and isinstance(d.args[1], ast.Name) and d.args[1].id == mvar):
-                    par = self.parents.get(self.parents.get(d))
-                    if isinstance(par, ast.If) and mask_none_test(par.test) == "some" and not par.orelse:
-                        ok = True
-            if not ok:
+            mk = [k.value for k in call.keywords if k.arg == "mask"] + list(call.args[2:3])
+            if len(mk) != 1 or not restricts(mk[0]):
                 return None
         return "SliceDown"
 
@@ -446,11 +485,11 @@ class Access:
                     and not pp.keywords and guard == "none"):
                 return "WholeIfNoMask"
             return self.other(n)
-        if isinstance(p, ast.Call) and isinstance(p.func, ast.Name) and p.func.id in DOWN:
-            k = DOWN[p.func.id]
+        if isinstance(p, ast.Call) and isinstance(p.func, ast.Name) and (p.func.id in DOWN or p.func.id in self.fnvars):
+            k = DOWN.get(p.func.id, 0)
             pos = p.args
             if len(pos) > k and pos[k] is n:
-                nxt = k + 1 if p.func.id in ("get_global_threshold", "fn") else k + 2
+                nxt = k + 2 if p.func.id in ("get_adaptive_threshold", "get_per_object_threshold") else k + 1
                 if (len(pos) > nxt and isinstance(pos[nxt], ast.Name) and pos[nxt].id in self.mask_names) or any(
                         kw.arg == "mask" and isinstance(kw.value, ast.Name) and kw.value.id in self.mask_names
                         for kw in p.keywords):
@@ -831,6 +870,241 @@ def body_formulas(src):
     return out
 
 
+# ------------------------------------------------------------------ method dispatch of get_global_threshold
+
+class _Unknown(object):
+    def __repr__(self):
+        return "<?>"
+
+
+UNKNOWN = _Unknown()
+
+
+class _Break(Exception):
+    pass
+
+
+class _Return(Exception):
+    def __init__(self, node, env):
+        self.node, self.env = node, env
+
+
+class _Raise(Exception):
+    pass
+
+
+class Dispatch:
+    """Which implementation does get_global_threshold call for a given method name?  Found by RUNNING the function's
+    control flow on the concrete method string: module-level string constants and function names are values, tuples /
+    lists / dicts of them are values, `for … in <constant sequence>` is executed (break, for/else), `==`/`!=`/`in`/`is`
+    between known values are decided, a test that cannot be decided may only guard an early `return <constant>` (the
+    empty-mask rule) and is skipped.  So an if/elif chain, a scanned table of (name, function) pairs, a dict lookup
+    … all give the same answer; anything else undecidable aborts the translation."""
+
+    def __init__(self, src, tree, fn):
+        self.src, self.fn = src, fn
+        self.glob = {}
+        for n in tree.body:
+            if isinstance(n, ast.Assign) and len(n.targets) == 1 and isinstance(n.targets[0], ast.Name) \
+                    and isinstance(n.value, ast.Constant) and isinstance(n.value.value, str):
+                self.glob[n.targets[0].id] = n.value.value
+            if isinstance(n, ast.FunctionDef):
+                self.glob[n.name] = ("fn", n.name)
+
+    def ev(self, e, env):
+        if isinstance(e, ast.Constant):
+            return e.value
+        if isinstance(e, ast.Name):
+            if e.id in env:
+                return env[e.id]
+            return self.glob.get(e.id, UNKNOWN)
+        if isinstance(e, (ast.Tuple, ast.List)):
+            return tuple(self.ev(x, env) for x in e.elts)
+        if isinstance(e, ast.Dict):
+            ks = [self.ev(k, env) for k in e.keys]
+            if any(k is UNKNOWN for k in ks):
+                return UNKNOWN
+            return ("dict", tuple(zip(ks, [self.ev(v, env) for v in e.values])))
+        if isinstance(e, ast.Subscript):
+            c, k = self.ev(e.value, env), self.ev(e.slice, env)
+            if isinstance(c, tuple) and c and c[0] == "dict" and k is not UNKNOWN:
+                for kk, vv in c[1]:
+                    if kk == k:
+                        return vv
+                raise _Raise()                       # KeyError
+            if isinstance(c, tuple) and isinstance(k, int) and not (c and c[0] in ("dict", "fn")):
+                return c[k] if -len(c) <= k < len(c) else UNKNOWN
+            return UNKNOWN
+        if isinstance(e, ast.Compare) and len(e.ops) == 1:
+            a, b = self.ev(e.left, env), self.ev(e.comparators[0], env)
+            op = e.ops[0]
+            if a is UNKNOWN or b is UNKNOWN:
+                return UNKNOWN
+            if isinstance(op, (ast.Eq, ast.Is)):
+                return a == b
+            if isinstance(op, (ast.NotEq, ast.IsNot)):
+                return a != b
+            if isinstance(op, ast.In) and isinstance(b, tuple):
+                return a in (tuple(k for k, _ in b[1]) if b and b[0] == "dict" else b)
+            if isinstance(op, ast.NotIn) and isinstance(b, tuple):
+                return a not in (tuple(k for k, _ in b[1]) if b and b[0] == "dict" else b)
+            return UNKNOWN
+        if isinstance(e, ast.UnaryOp) and isinstance(e.op, ast.Not):
+            v = self.ev(e.operand, env)
+            return UNKNOWN if v is UNKNOWN else (not v)
+        if isinstance(e, ast.BoolOp):
+            vals = [self.ev(v, env) for v in e.values]
+            if isinstance(e.op, ast.And):
+                if any(v is False for v in vals):
+                    return False
+                return UNKNOWN if any(v is UNKNOWN for v in vals) else all(vals)
+            if any(v is True for v in vals):
+                return True
+            return UNKNOWN if any(v is UNKNOWN for v in vals) else any(vals)
+        if (isinstance(e, ast.Call) and isinstance(e.func, ast.Attribute) and e.func.attr == "get" and 1 <= len(e.args) <= 2):
+            c, k = self.ev(e.func.value, env), self.ev(e.args[0], env)
+            if isinstance(c, tuple) and c and c[0] == "dict" and k is not UNKNOWN:
+                for kk, vv in c[1]:
+                    if kk == k:
+                        return vv
+                return self.ev(e.args[1], env) if len(e.args) == 2 else None
+        return UNKNOWN
+
+    def bind(self, t, v, env):
+        if isinstance(t, ast.Name):
+            env[t.id] = v
+        elif isinstance(t, (ast.Tuple, ast.List)) and isinstance(v, tuple) and len(v) == len(t.elts) \
+                and not (v and v[0] in ("dict", "fn")):
+            for tt, vv in zip(t.elts, v):
+                self.bind(tt, vv, env)
+        elif isinstance(t, (ast.Tuple, ast.List)):
+            for tt in t.elts:
+                self.bind(tt, UNKNOWN, env)
+        # stores through subscripts / attributes do not concern the dispatch
+
+    def block(self, stmts, env):
+        for s in stmts:
+            if isinstance(s, ast.Expr):
+                continue
+            if isinstance(s, ast.Assign):
+                v = self.ev(s.value, env)
+                for t in s.targets:
+                    self.bind(t, v, env)
+            elif isinstance(s, ast.AugAssign):
+                self.bind(s.target, UNKNOWN, env)
+            elif isinstance(s, ast.If):
+                c = self.ev(s.test, env)
+                if c is UNKNOWN:
+                    # only an early `return <constant>` may hide behind an undecidable test
+                    if (not s.orelse and len(s.body) == 1 and isinstance(s.body[0], ast.Return)
+                            and isinstance(s.body[0].value, ast.Constant)):
+                        continue
+                    bail(s, "get_global_threshold: undecidable test %r on the dispatch path" % ast.get_source_segment(self.src, s.test))
+                self.block(s.body if c else s.orelse, env)
+            elif isinstance(s, ast.For):
+                seq = self.ev(s.iter, env)
+                if not isinstance(seq, tuple) or (seq and seq[0] in ("dict", "fn")):
+                    bail(s, "get_global_threshold: loop over a non-constant sequence on the dispatch path")
+                broke = False
+                for item in seq:
+                    self.bind(s.target, item, env)
+                    try:
+                        self.block(s.body, env)
+                    except _Break:
+                        broke = True
+                        break
+                if not broke:
+                    self.block(s.orelse, env)
+            elif isinstance(s, ast.Break):
+                raise _Break()
+            elif isinstance(s, ast.Return):
+                raise _Return(s, dict(env))
+            elif isinstance(s, ast.Raise):
+                raise _Raise()
+            elif isinstance(s, ast.Pass):
+                continue
+            else:
+                bail(s, "get_global_threshold: statement %s on the dispatch path" % type(s).__name__)
+
+    def run(self, method):
+        env = {"threshold_method": method}
+        try:
+            self.block(self.fn.body, env)
+        except _Return as r:
+            return r
+        except _Raise:
+            return None
+        bail(self.fn, "get_global_threshold falls off its end for method %r" % method)
+
+    def kwargs_filtered(self, e, callee_node, env_names):
+        """**X where X is dict([(k, v) for k, v in kwargs.items() if k in F.args]) or the dict comprehension of the
+        same, F being the callee; X may be a local bound once to it"""
+        def norm(x):
+            if isinstance(x, ast.Call) and isinstance(x.func, ast.Name) and x.func.id == "dict" and len(x.args) == 1 \
+                    and isinstance(x.args[0], (ast.ListComp, ast.GeneratorExp)):
+                c = x.args[0]
+                elt = c.elt
+                if not (isinstance(elt, ast.Tuple) and len(elt.elts) == 2):
+                    return None
+                k, v = elt.elts
+            elif isinstance(x, ast.DictComp):
+                c, k, v = x, x.key, x.value
+            else:
+                return None
+            if len(c.generators) != 1:
+                return None
+            g = c.generators[0]
+            if not (isinstance(g.target, ast.Tuple) and len(g.target.elts) == 2 and all(isinstance(t, ast.Name) for t in g.target.elts)):
+                return None
+            kn, vn = g.target.elts[0].id, g.target.elts[1].id
+            if not (isinstance(k, ast.Name) and k.id == kn and isinstance(v, ast.Name) and v.id == vn):
+                return None
+            if ast.get_source_segment(self.src, g.iter).replace(" ", "") != "kwargs.items()" or len(g.ifs) != 1:
+                return None
+            t = g.ifs[0]
+            if (isinstance(t, ast.Compare) and len(t.ops) == 1 and isinstance(t.ops[0], ast.In) and isinstance(t.left, ast.Name)
+                    and t.left.id == kn and isinstance(t.comparators[0], ast.Attribute) and t.comparators[0].attr == "args"
+                    and ast.dump(t.comparators[0].value) == ast.dump(callee_node)):
+                return True
+            return None
+        if norm(e):
+            return True
+        if isinstance(e, ast.Name):
+            defs = [n.value for n in ast.walk(self.fn) if isinstance(n, ast.Assign) and len(n.targets) == 1
+                    and isinstance(n.targets[0], ast.Name) and n.targets[0].id == e.id]
+            return len(defs) == 1 and bool(norm(defs[0]))
+        return False
+
+
+def dispatch_table(src, tree, fn):
+    d = Dispatch(src, tree, fn)
+    methods = None
+    for n in tree.body:
+        if isinstance(n, ast.Assign) and len(n.targets) == 1 and isinstance(n.targets[0], ast.Name) \
+                and n.targets[0].id == "TM_METHODS" and isinstance(n.value, (ast.List, ast.Tuple)):
+            methods = [d.ev(e, {}) for e in n.value.elts]
+    if not methods or any(not isinstance(m, str) for m in methods):
+        raise Untranslatable("TM_METHODS is not a list of string constants")
+    table, filtered = [], True
+    for m in methods:
+        r = d.run(m)
+        if r is None:
+            table.append((m, "<raises>"))
+            continue
+        call = r.node.value
+        if not (isinstance(call, ast.Call) and len(call.args) == 2 and [getattr(a, "id", None) for a in call.args] == ["image", "mask"]):
+            bail(r.node, "get_global_threshold does not return <implementation>(image, mask, **kwargs)")
+        callee = d.ev(call.func, r.env)
+        if not (isinstance(callee, tuple) and len(callee) == 2 and callee[0] == "fn"):
+            bail(r.node, "get_global_threshold: the callee for %r is not a module-level function" % m)
+        kws = call.keywords
+        if not (len(kws) == 1 and kws[0].arg is None and d.kwargs_filtered(kws[0].value, call.func, r.env)):
+            filtered = False
+        table.append((m, callee[1]))
+    unknown = d.run("no such method")
+    return table, filtered, unknown is None
+
+
 # ------------------------------------------------------------------ arg-min selection idiom of otsu.py
 
 def otsu_selection(src):
@@ -888,14 +1162,8 @@ def translate(src, smooth_src=None, otsu_src=None):
         if n.name in NOT_A_THRESHOLD:
             continue
         acc.append((n.name, Access(src, n).run()))
-    # which method functions does get_global_threshold dispatch to?
-    disp = []
-    for n in ast.walk(fns["get_global_threshold"]):
-        if (isinstance(n, ast.Assign) and len(n.targets) == 1 and isinstance(n.targets[0], ast.Name)
-                and n.targets[0].id == "fn"):
-            if not isinstance(n.value, ast.Name):
-                raise Untranslatable("get_global_threshold: fn bound to a non-name")
-            disp.append(n.value.id)
+    # which implementation does get_global_threshold run for each method name?
+    disp, kw_filtered, unknown_raises = dispatch_table(src, tree, fns["get_global_threshold"])
     lines = [
         "(* GENERATED by tools/gen_threshold_c11.py from the staged centrosome/threshold.py - do not edit. *)",
         "From Coq Require Import ZArith QArith List String.",
@@ -921,9 +1189,12 @@ def translate(src, smooth_src=None, otsu_src=None):
         "Definition threshold_access : list (string * list access) :=",
         "  [" + ";\n   ".join("(%s, [%s])" % (coq_string(n), "; ".join(a)) for n, a in acc) + "].",
         "",
-        "(* the method functions get_global_threshold dispatches to *)",
-        "Definition threshold_dispatch : list string :=",
-        "  [" + "; ".join(coq_string(d) for d in disp) + "].",
+        "(* get_global_threshold, run on each method name of TM_METHODS: (method, implementation called with (image, mask,",
+        "   **kwargs)); whether the keywords are filtered by the implementation's argument list; whether an unknown name raises *)",
+        "Definition threshold_dispatch : list (string * string) :=",
+        "  [" + "; ".join("(%s, %s)" % (coq_string(m), coq_string(f)) for m, f in disp) + "].",
+        "Definition threshold_dispatch_filters_kwargs : bool := %s." % ("true" if kw_filtered else "false"),
+        "Definition threshold_dispatch_unknown_raises : bool := %s." % ("true" if unknown_raises else "false"),
         "",
     ]
     lines += ["Open Scope Q_scope."] + body_formulas(src) + ["Close Scope Q_scope.", ""]
